@@ -221,20 +221,25 @@ def network_membership(rep, cases, rng, n):
         missing = rng.choice(sorted(named)) if rng.random() < 0.7 else None
         declared = [l for l in LABELS if l != missing]
         rng.shuffle(declared)
+        # the reaction stands alone or among reactions over declared species only, at any position of the list
+        eqs = [text]
+        if rng.random() < 0.6:
+            eqs = [" -> %s" % declared[0], "%s -> " % declared[-1]]
+            eqs.insert(rng.randrange(3), text)
         for how in ("constructor", "dictionary"):
-            rep.case(["network-membership", text, missing, how])
+            rep.case(["network-membership", eqs, missing, how])
             try:
                 if how == "constructor":
-                    RDNetwork(species=[Species(l) for l in declared], reactions=[Reaction(text)])
+                    RDNetwork(species=[Species(l) for l in declared], reactions=[Reaction(e) for e in eqs])
                 else:
-                    rdnetwork_from_dict({"species": [{"label": l} for l in declared], "reactions": [{"eq": text}]})
+                    rdnetwork_from_dict({"species": [{"label": l} for l in declared], "reactions": [{"eq": e} for e in eqs]})
                 accepted = True
             except Exception:
                 accepted = False
             if accepted and missing is not None:
                 rep.violation("network", "network:accepted:undeclared-%s%s" % ("reactant" if missing in left else "product",
                                                                                "" if left else "-with-empty-reactant-side"),
-                              {"equation": text, "declared": declared, "undeclared": missing, "built-by": how})
+                              {"equation": text, "reactions": eqs, "declared": declared, "undeclared": missing, "built-by": how})
             elif not accepted and missing is None:
                 rep.violation("network", "network:rejected-valid", {"equation": text, "declared": declared, "built-by": how})
             stats["accepted" if accepted else "refused"] += 1
@@ -305,6 +310,67 @@ def matrix_checks(rep, cases, rng):
                                                                    "sub": [int(v) for v in sub], "want_sub": want_sub})
 
 
+def own_units_checks(rep):
+    """'bare numbers get exactly these units in the reaction's units system' - the reaction's own: what the caller does afterwards
+    to the units-system object it handed over, or to another reaction built with the same object or with the default, changes
+    nothing in a reaction that already exists, and nothing in the ones built later with the default."""
+    from strengths import UnitsSystem, reaction_to_dict
+    view = lambda r: json.dumps(reaction_to_dict(r), sort_keys=True, default=str)
+    routes = []
+
+    def handed_over():
+        us = UnitsSystem(space="nm", time="ms", quantity="mol")
+        r = Reaction("A + B -> C", kf=2, kr=3, units_system=us)
+        before = view(r)
+        us.time, us.space, us.quantity = "min", "m", "molecule"
+        return before, view(r)
+    routes.append(("units-system-object-edited-after-construction", handed_over))
+
+    def assigned():
+        us = UnitsSystem(space="nm", time="ms", quantity="mol")
+        r = Reaction("A + B -> C")
+        r.units_system = us
+        r.kf = 2
+        before = view(r)
+        us.time = "h"
+        return before, view(r)
+    routes.append(("units-system-object-edited-after-assignment", assigned))
+
+    def shared_between_two():
+        us = UnitsSystem(space="cm", time="s", quantity="µmol")
+        r1 = Reaction("A -> B", kf=1.5, units_system=us)
+        r2 = Reaction("2 A -> B", kf=4, units_system=us)
+        before = view(r1)
+        r2.units_system.time = "h"
+        return before, view(r1)
+    routes.append(("another-reaction-built-with-the-same-object-edited", shared_between_two))
+
+    def default_argument():
+        before = view(Reaction("A -> B", kf=6))
+        r = Reaction("A -> B", kf=6)
+        r.units_system.time = "h"
+        return before, view(Reaction("A -> B", kf=6))
+    routes.append(("default-units-after-editing-a-default-built-reaction", default_argument))
+
+    def split_half():
+        r = Reaction("A -> B", kf=6, kr=2, units_system=UnitsSystem(space="cm", time="s", quantity="molecule"))
+        before = view(r)
+        h1, h2 = r.split()
+        h1.units_system.time = "h"
+        h2.units_system.space = "m"
+        return before, view(r)
+    routes.append(("half-of-a-split-edited", split_half))
+    for name, fn in routes:
+        rep.case(["own-units", name])
+        try:
+            before, after = fn()
+        except Exception as e:  # noqa
+            rep.violation("constants", "reaction:own-units-exception:" + name, {"exc": repr(e)[:200]})
+            continue
+        if before != after:
+            rep.violation("constants", "reaction:units-follow-an-object-held-elsewhere:" + name, {"before": json.loads(before), "after": json.loads(after)})
+
+
 def run(tier, selftest=False, only=None):
     rep = Report(PROP, tier)
     rep.rule = ("model: all equations over labels {A, B, C, '2'} x coefficients {absent, 0, 1, 2, 3, 9} with up to 2 (thorough 3) "
@@ -354,6 +420,8 @@ def run(tier, selftest=False, only=None):
     with rep.guard("network", None):
         network_membership(rep, cases, rng, 1500)
     matrix_checks(rep, cases, rng)
+    with rep.guard("own-units", None):
+        own_units_checks(rep)
     rep.traces = len(cases)
     rep.extra["equations"] = len(cases)
     c = cases[len(cases) // 2]
